@@ -90,6 +90,13 @@ def cutter_fn(kind, seed, maxpayload):
     r = random.Random(seed ^ 0x85ebca6b)
 
     def cut(b):
+        if isinstance(kind, (list, tuple)):          # explicit cut positions (bytes from the start of the reply)
+            pos = sorted(set(p for p in kind if 0 < p < len(b)))
+            parts = [b[i:j] for i, j in zip([0] + pos, pos + [len(b)])]
+            out = []
+            for p_ in parts:
+                out += [p_[i:i + maxpayload] for i in range(0, len(p_), maxpayload)]
+            return out
         if kind == 'whole' or len(b) <= 1:
             return [b[i:i + maxpayload] for i in range(0, len(b), maxpayload)]
         if kind == 'bytes1':
@@ -206,7 +213,9 @@ def prepare_ops(spec, dev, tmp):
             ds = lambda rem: next(it, 65536)  # noqa
         else:
             ds = None
-        return simdev.SyncService(d, plan=plan, data_sizes=ds, cutter=cutter_fn(op.get('cuts', 'whole'), seed + cur, host_md))
+        svc = simdev.SyncService(d, plan=plan, data_sizes=ds, cutter=cutter_fn(op.get('cuts', 'whole'), seed + cur, host_md))
+        svc.explicit_sizes = op.get('explicit_sizes')
+        return svc
     dev.service_for = service_for
     dev.cur_op = None
     return args
